@@ -21,7 +21,7 @@ def run_matrix(ctx, cases, par):
         paths.append(p)
 
     def one(p):
-        return vlib.ndjson(vlib.run_bin("vh_nest", ["matrix", p], timeout=ctx.pick(1500, 6000)).stdout)
+        return vlib.ndjson(vlib.run_bin("vh_nest", ["matrix", p], timeout=ctx.pick(4000, 20000)).stdout)
 
     res = {}
     with concurrent.futures.ThreadPoolExecutor(max_workers=par) as ex:
@@ -43,7 +43,7 @@ def run(ctx):
     cases.sort(key=lambda c: (c["construct"], c["level"], c["depth"]))
     for i, c in enumerate(cases):
         c["id"] = i
-        c["budget_ms"] = ctx.pick(120000, 400000)
+        c["budget_ms"] = ctx.pick(60000, 300000)
     vlib.build(["vh-parser"])
     out = run_matrix(ctx, cases, ctx.pick(4, 6))
     if len(out) != len(cases):
@@ -98,10 +98,13 @@ def run(ctx):
     sout = P.run_chunks(ctx, "soup", soups, "soup", chunk=ctx.pick(20000, 60000), par=ctx.pick(2, 4), timeout=ctx.pick(900, 3000))
     ctx.cov["evaluations"] += sum(o["summary"]["parses"] for o in sout if "summary" in o)
     hangs = [o for o in sout if o.get("fail") == "hang"]
+    died = [o for o in sout if o.get("fail") == "died"]
+    for f in died:
+        viol.setdefault("C02/process-died/soup", []).append(f)
     for f in hangs:
         viol.setdefault("C02/hang/soup/" + "+".join(sorted({P.lex_class(x) for x in f["l"]})), []).append(
             {"l": f["l"], "text": f["text"], "seconds_without_return": f["seconds"]})
-    if hangs:
+    if hangs or died:
         # the recorder would grow without bound on a non-terminating parse: do not record traces
         for sig, ds in sorted(viol.items()):
             ctx.violation(sig, {"count": len(ds), "first": ds[0], "more": ds[1:6]})
